@@ -10,8 +10,14 @@ Parts
   strings       every string of length <= 2 (quick) / <= 3 (thorough) over the 24-symbol significant alphabet in each
                 component, in a full and a sparse frame (the sparse frame has only that component), two ways of
                 building the URL (attribute assignment after parsing the base / URL.from_parts)
+  shapes        the same cells for the argument shapes and frames the two parts above do not have: a query key that
+                occurs twice, placed through every shape URL.from_parts(query_params=) accepts (list, tuple, iterator,
+                QueryParamDict, OrderedMultiDict, dict) and through add / update / update_extend / replacement on a
+                parsed URL; a rootless path (first segment = the text) next to an authority, for one base per kind
+                of scheme (registered netloc / unregistered / registered no-netloc / '+'), parsed and assembled
   quote         quote_{userinfo,path,query,fragment}_part(s, full_quote=True): legal characters only, undone by
-                unquote; unquote against a 6-line reference decoder on character strings and escape-token strings
+                unquote; unquote against a 6-line reference decoder on character strings and escape-token strings,
+                on '%' + every pair of ASCII characters and on every upper/lower-case spelling of multi-byte runs
   grammar       URL texts and relative references assembled from menus per RFC 3986 production: full-quote and
                 minimal-quote render-after-parse fixed points, legal characters
   totality      every sequence of <= 4 (quick) / <= 5 (thorough) tokens, and every character in 20 structural
@@ -154,6 +160,10 @@ HOSTS = ('example.com', 'b\u00fccher.example', '127.0.0.1', '[2001:db8::1]', 'xn
 PORTS = (None, 1, 80, 8080, 65535)
 DEFAULT_PORT = {'http': 80, 'git+ssh': 22}             # from the schemes' own specifications
 
+# one base per kind of scheme (registered netloc, unregistered, registered no-netloc x2, '+'-suffixed), name / IPv4 hosts
+SHAPE_BASES = ('http://example.com:8042', 'x-y.z://127.0.0.1:9', 'mailto://example.com', 'sip://example.com:5070',
+               'git+ssh://example.com:2222')
+
 UNQUOTE_TOKENS = ['%', '%41', '%4', '%G1', '%%', '%25', '%C3', '%A9', '%c3', '%a9', '%E2', '%82', '%AC', '%F0',
                   '%9F', '%98', '%80', '%FF', '%00', '%ED', '%A0', 'a', '4', '+', ' ', '\u00e9', '\U0001f600',
                   '\u00a9']
@@ -225,20 +235,31 @@ def base_text(scheme, host, port):
 
 
 def frame_values(comp, text, frame):
-    """Decoded component values of the URL under test: the text in its component, the frame elsewhere."""
-    full = frame == 'full'
+    """Decoded component values of the URL under test: the text in its component, the frame elsewhere.
+    Frames: 'full' / 'sparse' (only that component); 'repeat' = full with a repeated query key (the text under test is
+    the repeated key / the first value under the repeated key); 'rootless' / 'rootless_sparse' = the path is
+    rootless (its first segment is the text under test, resp. 'p'), next to an authority."""
+    full = frame in ('full', 'repeat', 'rootless')
     v = {'username': 'u' if full else '', 'password': 'pw' if full else '',
          'path': ('', 'p', 'q') if full else ('',),
          'query': [('k', 'v'), ('k2', 'v2')] if full else [],
          'fragment': 'f' if full else ''}
+    if frame == 'repeat':
+        v['query'] = [('k', 'v'), ('k2', 'v2'), ('k', 'v3')]
+    rootless = frame in ('rootless', 'rootless_sparse')
+    if rootless:
+        v['path'] = ('p', 'q') if full else ('p',)
     if comp == 'username':
         v['username'] = text
     elif comp == 'password':
         v['password'] = text
     elif comp == 'path_segment':
-        v['path'] = ('', 'p', text, 'q') if full else ('', text)
+        if rootless:
+            v['path'] = (text, 'q') if full else (text,)
+        else:
+            v['path'] = ('', 'p', text, 'q') if full else ('', text)
     elif comp == 'query_key':
-        v['query'] = [(text, 'v')] + v['query'][1:]
+        v['query'] = [(text, val) if k == 'k' else (k, val) for k, val in v['query']] if v['query'] else [(text, 'v')]
     elif comp == 'query_value':
         v['query'] = [('k', text)] + v['query'][1:]
     elif comp == 'fragment':
@@ -248,14 +269,35 @@ def frame_values(comp, text, frame):
     return v
 
 
+def _omd(U, pairs):
+    from boltons.dictutils import OrderedMultiDict
+    return OrderedMultiDict(pairs)
+
+
+# argument shapes of URL.from_parts(query_params=...): everything OrderedMultiDict.update() documents
+QUERY_SHAPES = {'from_parts': lambda U, pairs: list(pairs),
+                'from_parts_tuple': lambda U, pairs: tuple(tuple(p) for p in pairs),
+                'from_parts_iter': lambda U, pairs: iter(list(pairs)),
+                'from_parts_qpd': lambda U, pairs: U.QueryParamDict(pairs),
+                'from_parts_omd': _omd,
+                'from_parts_dict': lambda U, pairs: dict(pairs)}
+
+
+PATH_SHAPES = {'from_parts_iter': iter, 'from_parts_qpd': list}        # path_parts: any iterable of segments
+ASSIGN_HOWS = ('assign', 'assign_update', 'assign_extend', 'assign_replace')
+
+
 def build_url(U, base, v, how):
     """The URL under test.  'assign': parse scheme://host:port, then assign the decoded components (query pairs
     through query_params.add, see DESIGN C06 harness notes).  'from_parts': URL.from_parts with the same values
-    (only used with name / IPv4 hosts: from_parts has no way to say "IPv6")."""
+    (only used with name / IPv4 hosts: from_parts has no way to say "IPv6"); 'from_parts_<shape>': the query pairs
+    are handed over as that shape (QUERY_SHAPES), path_parts as PATH_SHAPES; 'assign_<op>': the pairs reach the parsed
+    URL's query_params through update / update_extend / a new QueryParamDict instead of add."""
     parsed = U.URL(base)
-    if how == 'from_parts':
-        return U.URL.from_parts(scheme=parsed.scheme, host=parsed.host, port=parsed.port, path_parts=v['path'],
-                                query_params=list(v['query']), fragment=v['fragment'],
+    if how in QUERY_SHAPES:
+        path = PATH_SHAPES.get(how, tuple)(v['path'])
+        return U.URL.from_parts(scheme=parsed.scheme, host=parsed.host, port=parsed.port, path_parts=path,
+                                query_params=QUERY_SHAPES[how](U, v['query']), fragment=v['fragment'],
                                 username=v['username'], password=v['password']), parsed
     u = U.URL(base)
     u.username = v['username']
@@ -265,8 +307,17 @@ def build_url(U, base, v, how):
     # render in the middle of the history, then change the query in place: an earlier rendering must not be remembered
     u.to_text()
     u.to_text(full_quote=True)
-    for k, val in v['query']:
-        u.query_params.add(k, val)
+    if how == 'assign':
+        for k, val in v['query']:
+            u.query_params.add(k, val)
+    elif how == 'assign_update':
+        u.query_params.update(list(v['query']))
+    elif how == 'assign_extend':
+        u.query_params.update_extend(list(v['query']))
+    elif how == 'assign_replace':
+        u.query_params = U.QueryParamDict(v['query'])
+    else:
+        raise AssertionError(how)
     return u, parsed
 
 
@@ -340,6 +391,8 @@ def fixed_points(U, u, out, full_text=None, default_tags=()):
 def eval_cell(U, base, comp, text, frame, how='assign'):
     out = []
     v = frame_values(comp, text, frame)
+    if how == 'from_parts_dict':
+        v['query'] = list(dict(v['query']).items())       # what a plain dict holds: the last value of each key
     tags = text_tags(comp, text, v)
     pre = 'C06|roundtrip:%s|' % comp
     try:
@@ -374,12 +427,16 @@ def eval_cell(U, base, comp, text, frame, how='assign'):
         if not isinstance(obs, str) or nfc(obs) != exp:
             bad('not-recovered' if name == comp else 'leaked-into-%s' % name, exp, obs)
     exp_path, obs_path = tuple(nfc(p) for p in v['path']), tuple(u2.path_parts)
+    rootless = frame in ('rootless', 'rootless_sparse')
+    if rootless and exp_path[0] != '' and obs_path[:1] == ('',) and len(obs_path) == len(exp_path) + 1:
+        # next to an authority a path begins with "/" (RFC 3986 3.3): the root marker is not a placed segment
+        obs_path = obs_path[1:]
     if len(obs_path) != len(exp_path):
         bad('path-segments-split' if comp == 'path_segment' else 'leaked-into-path', exp_path, obs_path)
     else:
         for i, (e, o) in enumerate(zip(exp_path, obs_path)):
             if not isinstance(o, str) or nfc(o) != e:
-                mine = comp == 'path_segment' and i == len(exp_path) - (2 if frame == 'full' else 1)
+                mine = comp == 'path_segment' and i == (0 if rootless else len(exp_path) - (1 if frame == 'sparse' else 2))
                 bad('not-recovered' if mine else 'leaked-into-path', exp_path, obs_path)
                 break
     exp_q = [(nfc(k), nfc(val)) for k, val in v['query']]
@@ -670,6 +727,32 @@ def shard_unquote_tokens(arg, t, g):
         _record(t, case, g.call(case, eval_unquote, U, s))
 
 
+MULTIBYTE_ESCAPES = ['%c3%a9', '%ce%bb', '%e2%82%ac', '%ea%af%8d', '%f0%9f%98%80', '%f3%a0%84%80', '%ed%a0%80', '%c0%af']
+
+
+def case_spellings(s):
+    """Every upper/lower-case spelling of the letters of s (hex digits of escapes are case-insensitive)."""
+    opts = [(c.lower(), c.upper()) if c.isalpha() else (c,) for c in s]
+    return [''.join(p) for p in itertools.product(*opts)]
+
+
+def shard_unquote_hex(arg, t, g):
+    """'%' followed by every pair of ASCII characters (so every spelling of every escape, and every malformed
+    one), alone and inside text; every case spelling of multi-byte escape runs."""
+    U = _u()
+    texts = []
+    for a in arg['firsts']:
+        for b in ASCII:
+            texts += ['%' + a + b, 'x%' + a + b + 'y%' + a + b]
+    for esc in arg['runs']:
+        for sp in case_spellings(esc):
+            texts += [sp, 'a' + sp + '%' + sp]
+    for s in texts:
+        case = {'part': 'unquote', 'text': s}
+        t.count(nontrivial=bool(_ESCAPE_RUN.search(s)), sample=case if len(t.samples) < 3 else None)
+        _record(t, case, g.call(case, eval_unquote, U, s))
+
+
 def shard_grammar(arg, t, g):
     U = _u()
     for text in g_texts(arg['scheme'], arg['authorities'], arg['tails'], arg['queries'], arg['fragments']):
@@ -810,6 +893,25 @@ def run(ctx):
                          'frames': ('full', 'sparse'), 'hows': ('assign',)})
     inputs.run_shards(ctx, _guarded(shard_cells), args, part='strings', rule=rule)
 
+    # 2b. argument shapes and frames: a repeated query key placed through every shape URL.from_parts accepts for
+    # query_params; a rootless path next to an authority, for every kind of scheme, parsed and assembled URLs
+    shape_texts = list(dict.fromkeys(list(inputs.texts(ALPHABET24, 2)) + matrix_texts()))     # both tiers
+    few = ['', 'a', 'k', '%', '&=', '/']
+    mappings = ('from_parts_qpd', 'from_parts_omd', 'from_parts_dict', 'from_parts_tuple', 'from_parts_iter')
+    args = []
+    for comp in COMPONENTS:
+        in_query = comp in ('query_key', 'query_value')
+        for chunk in _chunks(shape_texts if in_query else few, 8 if in_query else 1):
+            args.append({'part': 'shapes', 'component': comp, 'texts': chunk, 'bases': list(SHAPE_BASES[:2]),
+                         'frames': ('repeat',), 'hows': ASSIGN_HOWS + ('from_parts',) + mappings})
+            args.append({'part': 'shapes', 'component': comp, 'texts': chunk, 'bases': list(SHAPE_BASES[:2]),
+                         'frames': ('full', 'sparse'), 'hows': mappings[:3] if in_query else mappings})
+        in_path = comp == 'path_segment'
+        for chunk in _chunks(shape_texts if in_path else few, 8 if in_path else 1):
+            args.append({'part': 'shapes', 'component': comp, 'texts': chunk, 'bases': list(SHAPE_BASES),
+                         'frames': ('rootless', 'rootless_sparse'), 'hows': ('assign', 'from_parts')})
+    inputs.run_shards(ctx, _guarded(shard_cells), args, part='shapes', rule=rule)
+
     # quote_*_part / unquote
     qtexts = list(dict.fromkeys(list(inputs.texts(ALPHABET24, b['quote_maxlen'])) + matrix_texts()))
     args = [{'texts': chunk} for chunk in _chunks(qtexts, 16)]
@@ -818,6 +920,8 @@ def run(ctx):
     args = [{'first': '', 'maxlen': 1, 'skip': seen}]
     args += [{'first': tok, 'maxlen': b['unquote_tokens_maxlen'], 'skip': seen} for tok in UNQUOTE_TOKENS]
     inputs.run_shards(ctx, _guarded(shard_unquote_tokens), args, part='unquote-tokens', rule=rule)
+    args = [{'firsts': chunk, 'runs': MULTIBYTE_ESCAPES[i::8]} for i, chunk in enumerate(_chunks(ASCII, 8))]
+    inputs.run_shards(ctx, _guarded(shard_unquote_hex), args, part='unquote-hex', rule=rule)
 
     # 3. grammar product
     inputs.run_shards(ctx, _guarded(shard_grammar), grammar_shards(ctx.tier), part='grammar', rule=rule)
@@ -850,6 +954,13 @@ def run(ctx):
         b, matrix_characters='128 ASCII + %d non-ASCII + %d atoms, alone and as x<c>y' % (len(NON_ASCII), len(ATOMS)),
         non_ascii=NON_ASCII, atoms=ATOMS, components=list(COMPONENTS), schemes=list(SCHEMES), hosts=list(HOSTS),
         ports=list(PORTS), alphabet24=ALPHABET24, unquote_tokens=UNQUOTE_TOKENS, totality_tokens=TOTALITY_TOKENS,
+        shapes={'bases': list(SHAPE_BASES), 'query_params_shapes': sorted(QUERY_SHAPES),
+                'query_placed_on_parsed_url_by': ['add', 'update', 'update_extend', 'replacing query_params'],
+                'frames': ['repeat (a query key occurs twice)', 'rootless / rootless_sparse (rootless path next to an '
+                           'authority)'],
+                'texts': 'strings of length <= 2 over alphabet24 + matrix texts in the components concerned, %r elsewhere' % (few,)},
+        unquote_hex={'pairs': "'%' + every pair of ASCII characters, alone and twice inside text",
+                     'multibyte_runs_in_every_case_spelling': MULTIBYTE_ESCAPES},
         totality_templates=TOTALITY_TEMPLATES, find_all_links_variants=[n for n, _ in FAL_VARIANTS],
         totality_classes={'partition': '(general category, isdecimal, isdigit, isnumeric, isspace, kind of NFKC folding '
                                        'to ASCII) over all assigned non-surrogate code points >= U+0080',
@@ -899,7 +1010,7 @@ def replay(ctx, data):
 def _replay(ctx, data, case):
     U = _u()
     part = case.get('part')
-    if part in ('matrix', 'strings'):
+    if part in ('matrix', 'strings', 'shapes'):
         res = eval_cell(U, case['base'], case['component'], case['text'], case['frame'], case.get('build', 'assign'))
     elif part == 'quote':
         res = eval_quote(U, case['fn'], case['text'])
